@@ -384,7 +384,12 @@ func udpSegmentation(tier string, seed uint64, res *Result) error {
 		}
 		rtu := isRTUKind(kind)
 		for round := 0; round < scale(tier, 3, 12); round++ {
-			for _, op := range c12Ops(r) {
+			ops := c12Ops(r)
+			if round == 0 { // replies that fill a datagram to the limit (MBAP 257..260 bytes, RTU 253..255)
+				ops = append(ops, &Op{Name: "ReadRegisters", Addr: 5, Qty: 125}, &Op{Name: "ReadRegisters", Addr: 5, Qty: 124},
+					&Op{Name: "ReadCoils", Addr: 5, Qty: 2000}, &Op{Name: "ReadCoils", Addr: 5, Qty: 1980})
+			}
+			for _, op := range ops {
 				var ref string
 				for pi := 0; pi < scale(tier, 6, 16); pi++ {
 					done := make(chan string, 1)
@@ -411,6 +416,16 @@ func udpSegmentation(tier string, seed uint64, res *Result) error {
 						default:
 							parts = randomChunks(r, stream)
 						}
+						// the property is about datagrams of at most 260 bytes: larger pieces are cut
+						var capped [][]byte
+						for _, p := range parts {
+							for len(p) > 260 {
+								capped = append(capped, p[:260])
+								p = p[260:]
+							}
+							capped = append(capped, p)
+						}
+						parts = capped
 						for _, p := range parts {
 							if len(p) > 0 {
 								peer.WriteToUDP(p, from)
